@@ -71,3 +71,15 @@ Definition attempted (c : gcase) (stale : bool) (op : cop) : bool :=
 Definition premise_guard (c : gcase) : bool :=
   gc_twins c && adjacent_distinct (gc_creations c) && (2 <=? N.of_nat (length (gc_creations c)))
   && forallb (attempted c true) stamped_ops && forallb (attempted c false) stamped_ops.
+
+(** ** the request / response rows alone (property C07: a reply made for a request of a node's previous
+    incarnation never reaches the process that has the same numeric id in the next one; a request
+    addressed to the previous incarnation of a process never reaches its successor) *)
+Definition is_call_op (op : cop) : bool :=
+  match op with CSendResponse | CSendResponseError | CCallPID | CCallAlias => true | _ => false end.
+Definition call_ops : list cop := [CSendResponse; CSendResponseError; CCallPID; CCallAlias].
+Definition spec_guard_calls (c : gcase) : bool :=
+  forallb (fun o => negb (is_call_op (go_op o)) || spec_one o) (gc_obs c) && (gc_delivered c =? 0).
+Definition premise_guard_calls (c : gcase) : bool :=
+  gc_twins c && adjacent_distinct (gc_creations c) && (2 <=? N.of_nat (length (gc_creations c)))
+  && forallb (attempted c true) call_ops && forallb (attempted c false) call_ops.
